@@ -377,13 +377,11 @@ pub fn check_walk(run: &mut Run, case_id: &str, p: &Prepared) {
     }
     if let Some(last) = values.last() {
         if dbg(last) != dbg(&p.full) {
-            let mut cls = class;
-            if p.mode == 1 && !p.taiko_trailing_hit && values.len() == p.units {
-                cls = "taiko-gradual-trailing-nonhit";
-            }
+            // (the former class taiko-gradual-trailing-nonhit is fixed in /repo: a last value that differs
+            // from the full calculation is an ordinary, unlisted failure again)
             run.fail(
                 "oracle:last-ne-full",
-                cls,
+                class,
                 case_id,
                 format!("last={} full={}", dbg(last), dbg(&p.full)),
                 p.repro(),
@@ -441,12 +439,9 @@ pub fn check_counts(run: &mut Run, case_id: &str, p: &Prepared) {
     );
     // n above the total gives the same attributes as not limiting at all
     for j in [p.units, p.units + 1] {
-        // taiko counts hits: passed_objects(total_hits) stops at the last hit (known finding 4b
-        // concerns j == units only when a non-hit trails)
+        // (taiko counts hits; since the fix of the trailing drum rolls / swells passed_objects(total hits)
+        // is the full calculation too)
         if dbg(&p.table[j]) != dbg(&p.full) {
-            if j == p.units && gm == GameMode::Taiko && !p.taiko_trailing_hit {
-                continue;
-            }
             if j == p.units && p.units == 0 {
                 continue;
             }
